@@ -101,8 +101,8 @@ func vC18ReadActivity(v *vServer) ([]vM, error) {
 type vC18Case struct {
 	soft    [][2]string // findings that do not end the history
 	srv     *vServer
-	sched   []vM            // what the driver did, with what it saw afterwards
-	history map[uint64]vM   // every command entry ever seen in the Raft log, by index
+	sched   []vM          // what the driver did, with what it saw afterwards
+	history map[uint64]vM // every command entry ever seen in the Raft log, by index
 	blocked bool
 	viol    string
 	vsig    string
@@ -171,6 +171,15 @@ func (c *vC18Case) lastEventIndex() uint64 {
 // settle waits until the dispatcher has recorded the latest event (unless publishes are blocked).
 func (c *vC18Case) settle() {
 	c.scanLog()
+	defer func() {
+		// the recorded index names an operation whose event is out: it can never lie beyond the last
+		// event-producing operation (a controller that starts resumes right after it)
+		if c.srv.s.config.ActivityStream.Enabled {
+			if lp, want := c.srv.s.activity.LastPublishedRaftIndex(), c.lastEventIndex(); lp > want {
+				c.violation("recorded-index-beyond-events", fmt.Sprintf("the metadata state says activity events are published up to Raft index %d, but the last operation that produces an event is at index %d: a controller starting now would skip whatever is committed up to %d", lp, want, lp))
+			}
+		}
+	}()
 	if c.blocked || !c.srv.s.config.ActivityStream.Enabled {
 		time.Sleep(30 * time.Millisecond)
 		return
